@@ -322,7 +322,20 @@ func (wf *Workflow) runProcs(procs map[string]WorkflowProcess) {
 
 	Debug.Printf("%s: Starting driver process (%s) in main go-routine", wf.name, wf.driver.Name())
 	wf.Auditf("Starting workflow (Writing log to %s)", wf.logFile)
-	wf.driver.Run()
+	if wf.driver != wf.sink {
+		// Other branches of the workflow can still end in the sink, so when a
+		// process without out-ports has taken over as driver, the sink has to
+		// be run as well, and the workflow is finished only when both are
+		sinkDone := make(chan int)
+		go func() {
+			wf.sink.Run()
+			close(sinkDone)
+		}()
+		wf.driver.Run()
+		<-sinkDone
+	} else {
+		wf.driver.Run()
+	}
 	wf.Auditf("Finished workflow (Log written to %s)", wf.logFile)
 }
 
